@@ -41,7 +41,10 @@ def listing(root):
     included)"""
     out = {}
     root = str(root)
-    out[root] = 'dir'
+    if os.path.isdir(root):
+        out[root] = 'dir'
+    elif os.path.lexists(root):
+        out[root] = 'file'
     for dp, dns, fns in os.walk(root):
         for d in dns:
             p = os.path.join(dp, d)
